@@ -97,7 +97,7 @@ class IrEngineBase(Engine):
             corpus = IrEngineBase.corpus
             ci = cfg.choice(len(corpus.w2))
             try:
-                module = Parser(IrEngineBase.full_ctx, corpus.w2[ci]).parse_module()
+                module = Parser(IrEngineBase.full_ctx.clone(), corpus.w2[ci]).parse_module()
                 n_mod = sum(1 for _ in module.walk())
             except Exception:  # noqa: BLE001
                 module, n_mod = None, 0
@@ -450,7 +450,7 @@ class C02Engine(IrEngineBase):
             tr.append(f"real pass {pname}.apply_to_clone on corpus chunk {corpus.names[ci]}")
         res.trace = tr
         try:
-            module = Parser(C02Engine.full_ctx, corpus.w2[ci]).parse_module()
+            module = Parser(C02Engine.full_ctx.clone(), corpus.w2[ci]).parse_module()
             with warnings.catch_warnings():
                 warnings.simplefilter("ignore")
                 ps = pfactory()()
